@@ -60,6 +60,8 @@ impl Range {
     pub const ERROR_END_IS_BIGGER_THAN_FILESIZE_CONTENT_RANGE: &'static str = "end is bigger than filesize in content range";
     pub const ERROR_MALFORMED_RANGE_HEADER_WRONG_UNIT: &'static str = "range header malformed, most likely you have an error in unit statement";
 
+    pub const ERROR_PARENT_DIRECTORY_SEGMENT_IN_PATH: &'static str = "path contains parent directory segment";
+
     pub const ERROR_UNABLE_TO_PARSE_RANGE_START: &'static str = "unable to parse range start";
     pub const ERROR_UNABLE_TO_PARSE_RANGE_END: &'static str = "unable to parse range end";
 
@@ -227,6 +229,17 @@ impl Range {
         }
 
         let components = boxed_url_components.unwrap();
+
+        let has_parent_directory_segment = components.path
+            .split(|c| c == '/' || c == '\\')
+            .any(|segment| segment == "..");
+        if has_parent_directory_segment {
+            let error = Error {
+                status_code_reason_phrase: STATUS_CODE_REASON_PHRASE.n404_not_found,
+                message: Range::ERROR_PARENT_DIRECTORY_SEGMENT_IN_PATH.to_string()
+            };
+            return Err(error);
+        }
 
         let file_path_part = components.path.replace(SYMBOL.slash, &FileExt::get_path_separator());
 
